@@ -61,6 +61,22 @@ def run(tier, wd):
         if r.get("hang") or r.get("crash") or not r.get("ran") or r.get("sbu") != w1 or r.get("sbu2") != w2:
             rep.violation("two options -o and -p store into one variable, argv=%s: SetByUser flags are %s and %s (ran=%s), given on the line: %s and %s" % (
                 c_["argv"], r.get("sbu"), r.get("sbu2"), r.get("ran"), w1, w2), {"engine": "values", "case": c_, "expected": w1, "expected2": w2})
+    # (1c) values that are empty or blank are values: the flag is true
+    bl_cases = []
+    for typ in ("strings", "string"):
+        for role, argvs in (("opt", (["-o", ""], ["--opt", " "], ["-o", "", "-o", " "], ["-o= "])), ("arg", ([""], [" ", ""], ["\t"]))):
+            for argv in argvs:
+                for ptr in (False, True):
+                    bl_cases.append({"type": typ, "role": role, "ptr": ptr, "default": V.DEFAULTS[typ][0], "envs": [], "cli": [], "argv": list(argv),
+                                     "spec": "[-o]..." if role == "opt" else "[A...]"})
+    bl_res = core.run_harness(binpath, "values", bl_cases, wd)
+    for c_, r in zip(bl_cases, bl_res):
+        rep.cov["evaluations"] += 1
+        if r.get("skipped"):
+            continue
+        if r.get("hang") or r.get("crash") or not r.get("ran") or r.get("sbu") is not True:
+            rep.violation("%s: SetByUser=%s (ran=%s err=%s), the command line supplied a value (an empty or blank one)" % (vc.describe(c_), r.get("sbu"), r.get("ran"), r.get("err")),
+                          {"engine": "values", "case": c_, "expected": True})
     # (2) several variables at once (standard program, recording types): the flag of every variable must be true iff the
     # derivation the library picked binds at least one token to it; environment-satisfied elements bind nothing
     p = g.STD_PROG
